@@ -3,7 +3,7 @@ from ..propbase import deductive, lines_universe, STD_TRUST
 from ..report import Report
 
 SB = "markdown_it.rules_block.state_block.StateBlock."
-FUNCS = ["markdown_it.parser_block.ParserBlock.tokenize", SB + "skipEmptyLines", "markdown_it.rules_block.hr.hr", "markdown_it.rules_block.heading.heading", "markdown_it.rules_block.lheading.lheading", "markdown_it.rules_block.fence.fence", "markdown_it.rules_block.code.code", "markdown_it.rules_block.html_block.html_block", "markdown_it.rules_block.paragraph.paragraph"]
+FUNCS = ["markdown_it.parser_block.ParserBlock.tokenize", SB + "__init__", SB + "skipEmptyLines", "markdown_it.rules_block.hr.hr", "markdown_it.rules_block.heading.heading", "markdown_it.rules_block.lheading.lheading", "markdown_it.rules_block.fence.fence", "markdown_it.rules_block.code.code", "markdown_it.rules_block.html_block.html_block", "markdown_it.rules_block.paragraph.paragraph"]
 
 
 def run(tier, seed):
